@@ -90,13 +90,15 @@ inductive Instr where
   | copy (k : Nat) (body : List Instr)
 deriving Repr, Inhabited
 
+mutual
 /-- pre-order numbering (1-based) of the elements of the source document with the chain of attribute
 lists (node first, then ancestors) -/
-partial def Src.index (t : Src) (chain : List (List Att)) : List (Src × List (List Att)) :=
-  match t with
-  | .elem _ _ atts kids =>
-    let c := atts :: chain
-    (t, c) :: (kids.map (fun k => k.index c)).flatten
+def Src.index (chain : List (List Att)) : Src → List (Src × List (List Att))
+  | .elem name uri atts kids => (.elem name uri atts kids, atts :: chain) :: Src.indexList (atts :: chain) kids
+def Src.indexList (chain : List (List Att)) : List Src → List (Src × List (List Att))
+  | [] => []
+  | k :: ks => Src.index chain k ++ Src.indexList chain ks
+end
 
 structure Env where
   stack : List (List NS)
@@ -108,38 +110,39 @@ structure Run where
   tags : List String := []     -- branch tags, newest first
   bad : Bool := false          -- the stylesheet would not compile (undeclared prefix in exclude-result-prefixes)
 
+mutual
 /-- `cloneToResultTree(node, …)` walk of a source subtree (elements only) -/
-partial def cloneTree (s : St) (t : Src) (chain : List (List Att)) : St :=
-  match t with
+def cloneTree (chain : List (List Att)) (s : St) : Src → St
   | .elem name uri atts kids =>
-    let c := atts :: chain
-    let s := s.cloneElementStart name uri c true
-    let s := kids.foldl (fun s k => cloneTree s k c) s
-    s.endElement name
+    ((cloneList (atts :: chain) (s.cloneElementStart name uri (atts :: chain) true) kids)).endElement name
+def cloneList (chain : List (List Att)) (s : St) : List Src → St
+  | [] => s
+  | k :: ks => cloneList chain (cloneTree chain s k) ks
+end
 
 def elementHandler (env : Env) : Handler :=
   (Handler.ctor ([] :: env.stack)).postConstruct (some env.parent) "xsl" []
 
 mutual
-partial def exec (env : Env) (r : Run) : Instr → Run
+/-- one instruction; `execList … skipAttrs` is `ElemElement::executeChildElement` (the children of an
+`xsl:element` with an illegal name are executed, its `xsl:attribute` children are not) -/
+def exec (env : Env) (r : Run) : Instr → Run
   | .text => { r with st := r.st.characters }
   | .attribute name ns value =>
     let h := elementHandler env
     let ssNs := if name.pfx = "xml" then some xmlURI else h.getNamespace name.pfx
-    let (s, b) := r.st.elemAttribute name ns ssNs value
-    { r with st := s, tags := ("A:" ++ reprStr b) :: r.tags }
+    let sb := r.st.elemAttribute name ns ssNs value
+    { r with st := sb.1, tags := ("A:" ++ reprStr sb.2) :: r.tags }
   | .element name ns body =>
     let h := elementHandler env
-    let (s, en, b) := r.st.elemElementStart name ns (h.getNamespace name.pfx) (h.getNamespace "")
+    let seb := r.st.elemElementStart name ns (h.getNamespace name.pfx) (h.getNamespace "")
         ((env.parent.getNamespace "").getD "")
-    let r := { r with st := s, tags := ("E:" ++ reprStr b) :: r.tags }
+    let r := { r with st := seb.1, tags := ("E:" ++ reprStr seb.2.2) :: r.tags }
     let env' : Env := { env with stack := [] :: env.stack, parent := h }
-    match en with
-    | none =>
-      -- illegal element: children executed, xsl:attribute children skipped
-      execList env' r (body.filter (fun i => match i with | .attribute .. => false | _ => true))
+    match seb.2.1 with
+    | none => execList env' r true body
     | some n =>
-      let r := execList env' r body
+      let r := execList env' r false body
       { r with st := r.st.endElement n }
   | .lre name nsdecls atts excl body =>
     let stack' := nsdecls :: env.stack
@@ -152,11 +155,11 @@ partial def exec (env : Env) (r : Run) : Instr → Run
       -- becomes an AVT named `xmlns`, evaluated with the other attributes in document order
       let xmlnsAvts : List Att := (nsdecls.filter (fun n => n.pfx = "")).map (fun n => ⟨⟨"", "xmlns"⟩, n.uri⟩)
       let s := s.addAtts (xmlnsAvts ++ atts)
-      let r := execList { env with stack := stack', parent := h } { r with st := s, tags := "L" :: r.tags } body
+      let r := execList { env with stack := stack', parent := h } { r with st := s, tags := "L" :: r.tags } false body
       { r with st := r.st.endElement name }
   | .copyOf k =>
     match env.nodes[k - 1]? with
-    | some (t, chain) => { r with st := cloneTree r.st t chain.tail, tags := "C" :: r.tags }
+    | some (t, chain) => { r with st := cloneTree chain.tail r.st t, tags := "C" :: r.tags }
     | none => { r with bad := true }
   | .copy k body =>
     match env.nodes[k - 1]? with
@@ -167,24 +170,27 @@ partial def exec (env : Env) (r : Run) : Instr → Run
       let envc : Env := { envf with stack := [] :: envf.stack, parent := hc }
       let s := r.st.cloneElementStart name uri chain false
       let s := s.copyNamespaceAttributes chain
-      let r := execList envc { r with st := s, tags := "Y" :: r.tags } body
+      let r := execList envc { r with st := s, tags := "Y" :: r.tags } false body
       { r with st := r.st.endElement name }
     | none => { r with bad := true }
-partial def execList (env : Env) (r : Run) : List Instr → Run
+def execList (env : Env) (r : Run) (skipAttrs : Bool) : List Instr → Run
   | [] => r
-  | i :: is => execList env (exec env r i) is
+  | .attribute name ns value :: is =>
+    if skipAttrs then execList env r skipAttrs is
+    else execList env (exec env r (.attribute name ns value)) skipAttrs is
+  | i :: is => execList env (exec env r i) skipAttrs is
 end
 
 /-- a whole generated stylesheet: `<xsl:stylesheet rootDecls exclude-result-prefixes=rootExcl>
 <xsl:template match="/"> body </xsl:template></xsl:stylesheet>` applied to `src` -/
-def runCase (rootDecls : List NS) (rootExcl : List String) (src : Src) (body : List Instr) : Run :=
+def runCase (v : Variant) (rootDecls : List NS) (rootExcl : List String) (src : Src) (body : List Instr) : Run :=
   match ({} : Handler).excludeTokens [rootDecls] rootExcl with
-  | none => { st := {}, bad := true }
+  | none => { st := { v := v }, bad := true }
   | some sh0 =>
     let sh := sh0.postConstruct none "" []
     let stack := [[], rootDecls]
     let th := (Handler.ctor stack).postConstruct (some sh) "xsl" []
-    let env : Env := { stack := stack, parent := th, nodes := src.index [] }
-    execList env { st := {} } body
+    let env : Env := { stack := stack, parent := th, nodes := Src.index [] src }
+    execList env { st := { v := v } } false body
 
 end XalanModel.C14
